@@ -109,7 +109,7 @@ func main() {
 	}
 	// longer messages (several keystream blocks)
 	for _, n := range []int{127, 128, 129, 255, 256, 257, 300, 511, 512, 513, 1000, 2048} {
-		if *tier != "thorough" && n > 257 {
+		if *tier != "thorough" && n > 257 && n != 513 && n != 2048 {
 			continue
 		}
 		for _, alg := range []uint8{1, 2} {
@@ -118,14 +118,11 @@ func main() {
 	}
 	// very long messages: more than 256 keystream blocks (a block counter kept in one octet would wrap), a bit length of 2^16 and more
 	// (a length field or a window of the keystream generator kept in 16 bits / 2048 words would wrap)
-	for _, n := range []int{4112, 8208, 16400} {
-		if *tier != "thorough" && n > 4112 {
-			continue // (SNOW 3G over 8 KiB takes TLC minutes: the quick tier stops at 4112 octets for NEA2 and 1000 for the others)
+	for _, n := range []int{4112, 8208, 16400, 32784, 65552} {
+		if *tier != "thorough" && n > 8208 {
+			continue // (the specification's keystream and MAC chains run in shallow recursion, linear in the length: 8 KiB costs TLC seconds)
 		}
-		cases = append(cases, mk("Enc", 2, n))
-		if *tier == "thorough" {
-			cases = append(cases, mk("Enc", 1, n), mk("Mac", 1, n), mk("Mac", 2, n))
-		}
+		cases = append(cases, mk("Enc", 2, n), mk("Enc", 1, n), mk("Mac", 1, n), mk("Mac", 2, n))
 	}
 	// structured message contents: all-zero and all-one messages, zero blocks of 8 and 16 octets at aligned and unaligned positions inside
 	// otherwise random messages (an evaluation that skips "empty" blocks, a keystream or MAC shortcut for zero input), sparse messages
